@@ -28,16 +28,17 @@ VARIABLES l,       \* next line of the log
           bad,     \* the current run has been reported already
           first,   \* session -> outcome [done, obs] of the first run of that session in this log
           okSess,  \* sessions of which some run was consumed to the end
-          stuck    \* sessions whose unsegmented reference run was not consumed to the end
+          stuck,   \* sessions whose unsegmented reference run was not consumed to the end
+          noted    \* sessions whose unsegmented run was reported as not reproducible
 
 Log == ndJsonDeserialize("log.ndjson")
 
-tvars == <<vars, l, cur, ndisp, bad, first, okSess, stuck>>
+tvars == <<vars, l, cur, ndisp, bad, first, okSess, stuck, noted>>
 
 NoWorld == [run |-> 0, sess |-> "", conn |-> "", cls |-> "", total |-> 0, segs |-> <<>>, src |-> ""]
 
 Init == /\ l = 1 /\ cur = NoWorld /\ ndisp = 0 /\ bad = FALSE
-        /\ first = <<>> /\ okSess = {} /\ stuck = {}
+        /\ first = <<>> /\ okSess = {} /\ stuck = {} /\ noted = {}
         /\ InitWith(<<>>)
 
 Report(kind, e, what, class, detail) ==
@@ -79,15 +80,23 @@ World ==
   /\ frames' = WithStarts(e.frames)
   /\ delivered' = 0 /\ consumed' = 0 /\ events' = <<>> /\ asked' = TRUE /\ dead' = FALSE
   /\ cur' = [run |-> e.run, sess |-> e.sess, cls |-> e.cls, src |-> e.src, segs |-> e.segs, base |-> e.base,
-             ref |-> e.ref, refd |-> e.refd, reffin |-> e.reffin, referr |-> e.referr]      \* (the frames live in `frames`)
+             ref |-> e.ref, refd |-> e.refd, reffin |-> e.reffin, referr |-> e.referr,
+             refok |-> e.refstable /\ ~e.reftimeout]      \* (the frames live in `frames`)
   /\ ndisp' = 0
   /\ UNCHANGED <<first, okSess>>
   /\ stuck' = IF ~e.reffin THEN stuck \cup {e.sess} ELSE stuck
   /\ IF TotalOf(WithStarts(e.frames)) # e.total
        THEN Report("DRIFT", e, "bookkeeping", "frames", "frame lengths do not add up to the stream length") /\ bad' = TRUE
-     ELSE IF ~e.refstable \/ e.reftimeout
-       THEN Report("DRIFT", e, "reference", "world", "the unsegmented run is not reproducible or did not return") /\ bad' = TRUE
        ELSE bad' = FALSE
+  (* Two unsegmented runs of the session disagreed (or one did not return): reported once per session as drift;
+     the runs are then compared with each other only (first run of the session), not with that reference. *)
+  /\ IF (~e.refstable \/ e.reftimeout) /\ e.sess \notin noted
+       THEN /\ PrintT("DRIFT " \o ToJson([prop |-> "C02", run |-> e.run, line |-> l, op |-> "world", kind |-> "reference",
+                                          class |-> "world", sess |-> e.sess, src |-> e.src, segs |-> e.segs,
+                                          step |-> [op |-> "world", refd |-> e.refd, referr |-> e.referr],
+                                          detail |-> "the unsegmented run is not reproducible or did not return"]))
+            /\ noted' = noted \cup {e.sess}
+       ELSE noted' = noted
 
 AskEv ==
   LET e == Log[l]
@@ -102,7 +111,7 @@ AskEv ==
       exp == [hs |-> xhs, reg |-> xreg, nd |-> xnd, wrote |-> xwrote, data |-> xdata, rsrc |-> xrsrc]
   IN
   /\ e.op = "ask"
-  /\ UNCHANGED <<cur, ndisp, first, okSess, stuck>>
+  /\ UNCHANGED <<cur, ndisp, first, okSess, stuck, noted>>
   /\ IF e.d < delivered \/ e.d > Total
        THEN /\ (~bad => Report("DRIFT", e, "bookkeeping", "count", "delivered byte count out of range"))
             /\ bad' = TRUE /\ UNCHANGED vars
@@ -119,7 +128,7 @@ DispEv ==
   IN
   /\ e.op = "disp"
   /\ ndisp' = ndisp + 1
-  /\ UNCHANGED <<vars, cur, first, okSess, stuck>>
+  /\ UNCHANGED <<vars, cur, first, okSess, stuck, noted>>
   /\ IF bad THEN bad' = bad
      ELSE IF i = 0 \/ frames[i].ty # e.ty \/ frames[i].id # e.id
        THEN Report("VIOL", e, "misparse", "disp", [frame |-> IF i = 0 THEN [k |-> "none"] ELSE frames[i]]) /\ bad' = TRUE
@@ -145,7 +154,7 @@ EndEv ==
       hasFirst == cur.sess \in DOMAIN first
   IN
   /\ e.op = "end"
-  /\ UNCHANGED <<cur, ndisp, stuck>>
+  /\ UNCHANGED <<cur, ndisp, stuck, noted>>
   /\ IF e.setup # ""
        THEN /\ (~bad => Report("DRIFT", e, "setup", "end", "the helper control connection of a transfer session failed"))
             /\ bad' = TRUE /\ UNCHANGED <<vars, first, okSess>>
@@ -158,12 +167,12 @@ EndEv ==
      ELSE /\ DeliverEager(e.d)
           /\ okSess' = IF done THEN okSess \cup {cur.sess} ELSE okSess
           /\ IF bad THEN bad' = bad
-             ELSE IF ~done /\ refdone
+             ELSE IF cur.refok /\ ~done /\ refdone
                THEN Report("VIOL", e, "abandoned", ClassAt(e.d), [at |-> e.d, total |-> Total, err |-> e.err]) /\ bad' = TRUE
-             ELSE IF done /\ ~refdone
+             ELSE IF cur.refok /\ done /\ ~refdone
                THEN Report("VIOL", e, "whole-abandoned", ClassAt(cur.refd),
                            [wholeStoppedAt |-> cur.refd, total |-> Total, wholeErr |-> cur.referr]) /\ bad' = TRUE
-             ELSE IF done /\ e.obs # cur.ref
+             ELSE IF cur.refok /\ done /\ e.obs # cur.ref
                THEN Report("VIOL", e, "final", "end", [reference |-> cur.ref, refd |-> cur.refd]) /\ bad' = TRUE
              ELSE IF hasFirst /\ first[cur.sess] # outc
                THEN Report("VIOL", e, "differs", "first-run", [firstRun |-> first[cur.sess]]) /\ bad' = TRUE
